@@ -39,7 +39,7 @@ from aioslsk.exceptions import InvalidSessionError, MessageDeserializationError
 from aioslsk.interest.manager import InterestManager
 from aioslsk.network.connection import (
     CloseReason, ConnectionState, DataConnection, ListeningConnection, PeerConnection, PeerConnectionType)
-from aioslsk.network.network import Network
+from aioslsk.network.network import ListeningConnectionErrorMode, Network
 from aioslsk.protocol.messages import (
     AddHatedInterest, AddInterest, AddUser, BranchLevel, BranchRoot, GetUserStatus, JoinRoom, Kicked, LeaveRoom,
     Login, MinParentsInCache, DistributedAliveInterval, ParentInactivityTimeout, ParentMinSpeed, ParentSpeedRatio,
@@ -923,6 +923,128 @@ def h_reset(c, fault='drop:READ_ERROR'):
 
 
 # ------------------------------------------------------------------------------------------------
+# sentence 1 holds for EVERY login: the server view of the session after a reconnect
+# ------------------------------------------------------------------------------------------------
+
+class _TagCtx:
+    """the obligations of check_view with one more element in every sig (which session of the run)"""
+
+    def __init__(self, c, tag):
+        self._c, self._tag = c, tag
+
+    def __getattr__(self, name):
+        return getattr(self._c, name)
+
+    def check(self, cond, label, sig=None, info=None):
+        return self._c.check(cond, label, sig=list(sig or []) + [self._tag], info=info)
+
+
+def apply_cfg(client, g, stats_holder):
+    """the application changes its settings while the client is disconnected"""
+    s = client.settings
+    s.users.friends = set(g.friends)
+    s.rooms.favorites = set(g.favorites)
+    s.interests.liked = set(g.liked)
+    s.interests.hated = set(g.hated)
+    _put(s.rooms, 'auto_join', g.auto_join)
+    _put(s.rooms, 'private_room_invites', g.invites)
+    _put(s.debug, 'search_for_parent', g.search_for_parent)
+    stats_holder[0] = g.stats
+
+
+def session_burst(side):
+    first = next((i for i, m in enumerate(side.received) if isinstance(m, Login.Request)), len(side.received))
+    return list(side.received[first:])
+
+
+def h_relogin(c, sym=(), n=1, ports='both', obf_bind='ok', shares='counts', change='unchanged', via='watchdog',
+              loss='drop:READ_ERROR'):
+    """login -> the server view of session 1 -> unrequested loss -> [settings changed] -> reconnect (watchdog or by
+    hand) -> login -> the server view of session 2 (a fresh simulated server session: what THAT session was told)"""
+    sym = list(sym)
+    lst = ['CONNECTED']
+    g1 = build_cfg(c, sym, n, ports, lst, 'none', shares)
+    if obf_bind == 'fails' and ports in ('obf', 'both'):
+        g1.lstate[1] = 'CLOSED'                  # the bind of the obfuscated port fails: real CONNECT_FAILED path
+    g1.login_ok = True
+    if change == 'changed':
+        g2 = build_cfg(c, sym, n, ports, lst, 'none', shares)    # fresh symbolic values for the second login
+        # the listening connections are created once: port numbers and their state stay what they were
+        g2.port, g2.obf_port, g2.lstate = g1.port, g1.obf_port, g1.lstate
+    else:
+        g2 = g1
+    ok2 = c.fresh_bool('relogin_accepted')
+    loop = Loop()
+    settings = build_settings(g1)
+    if ports in ('obf', 'none'):
+        # the default error_mode (clear) refuses to start without a connected clear port
+        settings.network.listening.error_mode = ListeningConnectionErrorMode.ANY
+    env = Env(c, loop, via == 'watchdog', lambda i: True if i == 0 else ok2, settings=settings)
+    client, net = env.client, env.net
+    net.obfuscated_bind_fails = g1.lstate[1] == 'CLOSED'
+    try:
+        with captured_logs() as logs, net:
+            holder = [g1.stats]
+            if g1.stats is not None:
+                client.shares.get_stats = lambda: holder[0]     # stub: counts as data (shares='counts')
+            st = env.spawn(client.start(), 'start')
+            loop.run_ready()
+            if not (st.done() and st.exception() is None and env.conn.state == ConnectionState.CONNECTED):
+                raise symex.HarnessError(f'client did not start: {st}')
+            # start() has loaded the shared directories from the settings; fill them as a finished scan would
+            if len(client.shares.shared_directories) != len(g1.dir_shapes):
+                raise symex.HarnessError('shared directories not loaded')
+            for sd, shape in zip(client.shares.shared_directories, g1.dir_shapes):
+                for sub, fn in shape:
+                    sd.items.add(SharedItem(sd, sub, fn, 1.0))
+            for conn, want in zip(client.network.listening_connections, g1.lstate):
+                if conn is not None and conn.state.name != want:
+                    raise symex.HarnessError(f'listening connection is {conn.state.name}, scenario wants {want}')
+            env.spawn(client.login(), 'login')
+            loop.advance(2.0)
+            if client.session is None:
+                raise symex.HarnessError('first login failed')
+            c.reach('first_session')
+            check_view(_TagCtx(c, 'first_session'), view_of(session_burst(net.server_sides[0])), g1, reference(g1))
+
+            inject(env, loss)
+            loop.advance(T_SETTLE)
+            ob(c, env.conn.state == ConnectionState.CLOSED and client.session is None, 'fault_closes_connection',
+               sig=[loss, 'relogin'], info=env.conn.state.name)
+            if change == 'changed':
+                apply_cfg(client, g2, holder)
+            if via == 'watchdog':
+                loop.advance(T_RECONNECT)
+            else:
+                t = env.spawn(client.network.connect_server(), 'connect')
+                loop.run_ready()
+                if not (t.done() and t.exception() is None):
+                    raise symex.HarnessError('manual reconnect failed')
+                env.spawn(client.login(), 'login2')
+                loop.advance(2.0)
+            ob(c, len(net.server_sides) == 2 and env.conn.state == ConnectionState.CONNECTED, 'relogin_after_reconnect',
+               sig=[loss, via, 'not_connected'], info=env.conn.state.name)
+            if len(net.server_sides) == 2:
+                side = net.server_sides[1]
+                ob(c, any(isinstance(m, Login.Request) for m in side.received), 'relogin_after_reconnect',
+                   sig=[loss, via, 'no_login'])
+                present = client.session is not None
+                ob(c, ok2 if present else Not(ok2), 'session_iff_login_accepted',
+                   sig=['relogin', 'session' if present else 'no_session'])
+                if present:
+                    c.reach('second_session')
+                    check_view(_TagCtx(c, 'second_session'), view_of(session_burst(side)), g2, reference(g2))
+            for name, msg, e in logs.records[:8]:
+                c.note('log', name, msg, repr(e))
+                if c.symbolic and isinstance(e, TypeError) and any(p in str(e) for p in ('SInt', 'SBool', 'SReal')):
+                    raise symex.HarnessError(f'proxy leaked into C code: {e!r}')
+            for i, side in enumerate(net.server_sides):
+                c.note('frames of session', i + 1, view_of(session_burst(side)).frames)
+    finally:
+        _cleanup(loop)
+
+
+# ------------------------------------------------------------------------------------------------
 # prelude: the symbolic-mode codec bypass must show the server the same thing as the real codec
 # ------------------------------------------------------------------------------------------------
 
@@ -1023,6 +1145,11 @@ META = {
                    'session exists iff the login was accepted, and that execute() raises InvalidSessionError and sends nothing '
                    'exactly when there is no session. Membership of the candidate friends / interests / favourites is an '
                    'SBool materialised per path into the real settings sets (a finite shape). '
+                   'Sentence 1 for EVERY login (h_relogin, same environment as sentences 2-4): real start(), login, the server '
+                   'view of session 1, an unrequested loss (disconnect(READ_ERROR / TIMEOUT) / reset / failing write), settings '
+                   'unchanged or replaced by FRESH symbolic values while disconnected, reconnect by the watchdog or by hand, '
+                   'second login (verdict symbolic): the complete server-view oracle is applied to what the NEW simulated server '
+                   'session was told (sig element first_session / second_session). '
                    'Sentences 2-4 (h_loss, h_reset; environment engine/c16life.py): the real client.start() (load_data, start of '
                    'all services, Network.initialize with real ListeningConnection.connect / ServerConnection.connect), login(), '
                    'DataConnection.disconnect / _read / _send error paths, Network.on_state_changed and the watchdog, every '
@@ -1110,6 +1237,8 @@ META = {
                       'server behaviour on AddUser (exists / does not exist / silent)',
                       '0..2 shared directories x 5 content shapes (0..3 files in 0..2 sub directories)',
                       'command used to probe the session gate (GetUserStatus / JoinRoom / PrivateMessage)',
+                      'h_relogin: settings unchanged / changed between the logins; reconnect by watchdog / by hand; kind of '
+                      'unrequested loss (4); obfuscated port bind ok / fails (real CONNECT_FAILED path); which ports are configured',
                       'sentences 2-4 - ALL of these are enumerated injection points, not solver variables: kind of fault '
                       '(disconnect(reason) x 7 close reasons, eof, reset, failing write, disconnect_server(), stop()); position of '
                       'the fault (pre_login; before each of the ~56 loop steps of the real login burst; idle 1 s later; 0.2 s / 5 s '
@@ -1118,6 +1247,8 @@ META = {
                       'first reconnect attempt (ok / refused once)'],
     'bounds': {'quick': {'candidate_names_per_set': '3 in the per-manager jobs, 1 (+ own name) in the all-symbolic jobs',
                          'window_after_login_s': 2.0, 'shared_directories': '0..2',
+                         'relogin': 'two sessions per run; per-group jobs with 1-2 candidate names x unchanged/changed x '
+                                    'watchdog/manual, all groups symbolic with 1 candidate (unchanged), directory shapes',
                          'life_cycle': 'fault at every loop step of the burst for 6 fault kinds + stop(); all 7 close reasons '
                                        'pre-login and idle; stop() pre-login / burst / idle (3 kinds of pending work) / watchdog '
                                        'wait / every step of the reconnect; observation: 3 s after the fault, 13 s for the '
@@ -1131,6 +1262,8 @@ META = {
                 'order sensitive (last value wins, add before remove)',
                 'retries of AddUser after the 2 s observation window (10 s / 600 s timers), settings changed during the burst',
                 'more candidate names than the bound; string contents of names (names are concrete strings)',
+                'h_relogin: more than two sessions per client; listening ports changed at run time (the connections are '
+                'created once); a distributed parent surviving the loss (h_login covers the parent cases for one login)',
                 'sentences 2-4: more than one fault per run (except unrequested loss + stop()); faults while transfers are in '
                 'progress (C03-C06 own the transfer tasks); peer connections other than potential-parent connects; UPnP; '
                 'the wishlist job; real sockets (partial writes, half-open connections, wait_closed that blocks); schedules '
@@ -1178,7 +1311,7 @@ def jobs(tier):
         # real get_stats over every directory shape together with the other symbolic groups (1 candidate name)
         for p in ('none', 'both'):
             out.append(_job(ok, sym=allg, n=1, ports=p, shares='shapes'))
-    return out + life_jobs(tier)
+    return out + life_jobs(tier) + relogin_jobs(tier)
 
 
 ALL_REASONS = ['UNKNOWN', 'CONNECT_FAILED', 'REQUESTED', 'READ_ERROR', 'WRITE_ERROR', 'TIMEOUT', 'EOF']
@@ -1186,6 +1319,32 @@ ALL_REASONS = ['UNKNOWN', 'CONNECT_FAILED', 'REQUESTED', 'READ_ERROR', 'WRITE_ER
 
 def _ljob(fn, name, requires, **params):
     return {'harness': name, 'fn': fn, 'params': params, 'requires': requires}
+
+
+def relogin_jobs(tier):
+    """sentence 1 for the session after a reconnect (and for the first one, in the live environment)"""
+    q = tier == 'quick'
+    out = []
+    req = ['first_session', 'second_session']
+    for via in ('watchdog', 'manual'):
+        for change in ('unchanged', 'changed'):
+            for grp, n in (('shares', 1), ('rooms', 2), ('users', 2), ('interests', 1 if q and change == 'changed' else 2),
+                           ('distributed', 1), ('ports', 1)):
+                if grp == 'ports' and change == 'changed':
+                    continue        # the listening connections are created once per client
+                out.append(_ljob(h_relogin, 'relogin', req, sym=[grp], n=n, change=change, via=via))
+        # everything symbolic at once, settings unchanged; with and without a failed bind of the obfuscated port
+        for p, bind in (('both', 'ok'), ('both', 'fails'), ('clear', 'ok')) if q else \
+                (('both', 'ok'), ('both', 'fails'), ('clear', 'ok'), ('obf', 'ok'), ('none', 'ok')):
+            out.append(_ljob(h_relogin, 'relogin', req, sym=list(GROUPS), n=1, ports=p, obf_bind=bind, via=via))
+    # real get_stats over every directory shape, other kinds of unrequested loss
+    out.append(_ljob(h_relogin, 'relogin', req, sym=['shares'], shares='shapes'))
+    for loss in ('reset', 'write', 'drop:TIMEOUT'):
+        out.append(_ljob(h_relogin, 'relogin', req, sym=['shares', 'rooms'], n=1, loss=loss))
+    if not q:
+        out.append(_ljob(h_relogin, 'relogin', req, sym=['shares', 'rooms', 'distributed'], n=2, change='changed'))
+        out.append(_ljob(h_relogin, 'relogin', req, sym=['users', 'interests'], n=1, change='changed', via='manual'))
+    return out
 
 
 def life_jobs(tier):
